@@ -159,6 +159,13 @@ def long_texts(ctx):
         out.append("a&" * count)
         out.append(("x<y>&amp;'" * count)[:count * 3])
         out.append("a" * count + "&" + "b" * count + "<")
+    # block sizes: a few tokens at lengths around 2^16 and 2^17 (a specials-only string, a plain
+    # one, one with a special exactly on the block boundary)
+    for count in (65535, 65536, 65537, 131071, 131073):
+        out.append("x" * count)
+        out.append("&" * count)
+        out.append("x" * (count - 1) + "<")
+        out.append("x" * 65535 + "'" + "y" * (count - 65535))
     return out
 
 
@@ -167,7 +174,9 @@ def _long_chunk(texts):
     for text in texts:
         for clause, msg in check_escape(text):
             short = text if len(text) <= 40 else f"{text[:20]}...({len(text)} characters)"
-            part.violation(f"{clause}:long:{core.digest(text)}", msg.replace(repr(text), repr(short)),
+            msg = msg.replace(repr(text), repr(short))
+            msg = msg if len(msg) < 700 else msg[:340] + " ... " + msg[-340:]
+            part.violation(f"{clause}:long:{core.digest(text)}", msg,
                            {"kind": "escape", "text": text})
         part.count("escape_cases")
         part.count("long_escape_cases")
@@ -290,7 +299,8 @@ def run(ctx):
         "distinct_nontrivial": cnt.get("nontrivial", 0),
         "rule": f"all token sequences of length 0..{max_len} over {len(TOKENS)} tokens (special "
                 "characters, pre-escaped entities, mixed quotes) parsed back with lxml; every token "
-                f"and four mixed patterns repeated {LONG_COUNTS} times; every XML 1.0 character "
+                f"and four mixed patterns repeated {LONG_COUNTS} times, four patterns at lengths "
+                "2^16-1..2^17+1; every XML 1.0 character "
                 "U+0020..U+10FFFF (1,112,030 code points) alone, after a letter and before a "
                 "combining mark; every "
                 "integer millisecond 0..3,700,000 as ms and as seconds; three floats around every "
